@@ -44,6 +44,7 @@ import (
 	"testing"
 	"time"
 
+	"github.com/algorand/go-deadlock"
 	"github.com/sirupsen/logrus"
 
 	"github.com/algorand/go-algorand/agreement"
@@ -96,6 +97,9 @@ func c14RegisterProtos() {
 		config.Consensus[c14ProtoB] = b
 
 		// MakeLabel logs through logging.Base() at Info level; keep the test output readable.
+		// go-deadlock's lock-order bookkeeping (a stack capture per Lock) is a debugging aid that
+		// production nodes run without (config DeadlockDetection); it would dominate the run time.
+		deadlock.Opts.Disable = true
 		logging.Base().SetLevel(logging.Error)
 		logging.Base().SetOutput(io.Discard)
 	})
@@ -375,6 +379,40 @@ func (n *c14Node) addBlock(blk bookkeeping.Block, flush bool) error {
 	}
 	n.settle(blk.Round())
 	atomic.AddInt64(&n.ops, 1)
+	return nil
+}
+
+// addBatch feeds several consecutive blocks that the block queue persists in ONE batch (what
+// happens when blocks arrive faster than the block database commits, e.g. during catchup):
+// the syncer is stopped, the blocks are queued, the syncer is started again and handles the
+// whole queue at once, so the trackers see a single committedUpTo(last).
+func (n *c14Node) addBatch(blks []bookkeeping.Block, flush bool) error {
+	if len(blks) == 1 {
+		return n.addBlock(blks[0], flush)
+	}
+	tr := &n.l.trackers
+	tr.mu.Lock()
+	if flush {
+		tr.lastFlushTime = time.Time{}
+	} else {
+		tr.lastFlushTime = time.Now().Add(1000 * time.Hour)
+	}
+	tr.mu.Unlock()
+	n.l.blockQ.stop()
+	var err error
+	for _, blk := range blks {
+		if err = n.l.AddBlock(blk, agreement.Certificate{}); err != nil {
+			break
+		}
+		atomic.AddInt64(&n.ops, 1)
+	}
+	if err0 := n.l.blockQ.start(); err0 != nil && err == nil {
+		err = err0
+	}
+	if err != nil {
+		return err
+	}
+	n.settle(blks[len(blks)-1].Round())
 	return nil
 }
 
@@ -966,25 +1004,46 @@ type c14Plan struct {
 	Flush     []bool // Flush[i]: decision for round i+1
 	RestartAt int    // restart after this round (0 = never)
 	Reopen    bool   // restart by close+open instead of reloadLedger (file backed only)
+	// rounds BurstStart .. BurstStart+BurstLen-1 are persisted by the block queue as one batch
+	// (0 = every block on its own); the flush decision of the last round of the batch applies.
+	BurstStart, BurstLen int
 }
 
 // c14Run replays the history on the node according to the plan.
 func c14Run(n *c14Node, h *c14History, p c14Plan) (*c14Obs, error) {
+	return c14RunHook(n, h, p, nil)
+}
+
+// c14RunHook is c14Run with a callback after every step (step = rounds added so far).
+func c14RunHook(n *c14Node, h *c14History, p c14Plan, hook func(step int, restarted bool, o *c14Obs)) (*c14Obs, error) {
 	o := c14NewObs()
+	restarted := false
 	last := basics.Round(0)
 	if err := n.observe(o, &last); err != nil {
 		return o, err
 	}
-	for i, blk := range h.Blocks {
+	for i := 0; i < len(h.Blocks); i++ {
+		batch := h.Blocks[i : i+1]
+		if p.BurstLen > 1 && i+1 == p.BurstStart {
+			end := min(i+p.BurstLen, len(h.Blocks))
+			if p.RestartAt > i+1 && p.RestartAt < end {
+				end = p.RestartAt
+			}
+			batch = h.Blocks[i:end]
+			i = end - 1
+		}
 		fl := true
 		if i < len(p.Flush) {
 			fl = p.Flush[i]
 		}
-		if err := n.addBlock(blk, fl); err != nil {
-			return o, fmt.Errorf("AddBlock(%d): %v", i+1, err)
+		if err := n.addBatch(batch, fl); err != nil {
+			return o, fmt.Errorf("AddBlock(%d..%d): %v", batch[0].Round(), i+1, err)
 		}
 		if err := n.observe(o, &last); err != nil {
 			return o, err
+		}
+		if hook != nil {
+			hook(i+1, restarted, o)
 		}
 		if p.RestartAt == i+1 {
 			var err error
@@ -996,8 +1055,12 @@ func c14Run(n *c14Node, h *c14History, p c14Plan) (*c14Obs, error) {
 			if err != nil {
 				return o, fmt.Errorf("restart after round %d: %v", i+1, err)
 			}
+			restarted = true
 			if err := n.observe(o, &last); err != nil {
 				return o, err
+			}
+			if hook != nil {
+				hook(i+1, restarted, o)
 			}
 		}
 	}
@@ -1051,8 +1114,9 @@ type c14RestoreResult struct {
 }
 
 // c14Stage feeds sections + label through the accessor up to VerifyCatchpoint +
-// StoreBalancesRound + StoreFirstBlock. It does not adopt anything yet.
-func c14Stage(l *Ledger, label string, secs []c14Section, src c14BlockSource) (acc CatchpointCatchupAccessor, topBlk bookkeeping.Block, res c14RestoreResult) {
+// StoreBalancesRound + StoreFirstBlock (the latter two only when store is set). It does not
+// adopt anything yet.
+func c14Stage(l *Ledger, label string, secs []c14Section, src c14BlockSource, store bool) (acc CatchpointCatchupAccessor, topBlk bookkeeping.Block, res c14RestoreResult) {
 	ctx := context.Background()
 	acc = MakeCatchpointCatchupAccessor(l, l.log)
 	fail := func(stage string, err error) (CatchpointCatchupAccessor, bookkeeping.Block, c14RestoreResult) {
@@ -1088,6 +1152,9 @@ func c14Stage(l *Ledger, label string, secs []c14Section, src c14BlockSource) (a
 	topBlk = blk
 	if err := acc.VerifyCatchpoint(ctx, &blk); err != nil {
 		return fail("VerifyCatchpoint", err)
+	}
+	if !store {
+		return acc, topBlk, c14RestoreResult{}
 	}
 	if err := acc.StoreBalancesRound(ctx, &blk); err != nil {
 		return fail("StoreBalancesRound", err)
@@ -1247,6 +1314,82 @@ func c14DiffDumps(a, b map[string]string, skipPrefix ...string) []string {
 	sort.Strings(d)
 	return d
 }
+
+// ---------------------------------------------------------------------------------------------
+// decoded file
+
+type c14File struct {
+	secs []c14Sec
+}
+
+type c14Sec struct {
+	name   string
+	kind   string // "header", "sp", "chunk", "raw"
+	header CatchpointFileHeader
+	sp     catchpointStateProofVerificationContext
+	chunk  CatchpointSnapshotChunkV6
+	raw    []byte
+}
+
+func c14Decode(secs []c14Section) (*c14File, error) {
+	f := &c14File{}
+	for _, s := range secs {
+		d := c14Sec{name: s.Name}
+		switch {
+		case s.Name == CatchpointContentFileName:
+			d.kind = "header"
+			if err := protocol.Decode(s.Data, &d.header); err != nil {
+				return nil, err
+			}
+		case s.Name == catchpointSPVerificationFileName:
+			d.kind = "sp"
+			if err := protocol.Decode(s.Data, &d.sp); err != nil {
+				return nil, err
+			}
+		case strings.HasPrefix(s.Name, catchpointBalancesFileNamePrefix):
+			d.kind = "chunk"
+			if err := protocol.Decode(s.Data, &d.chunk); err != nil {
+				return nil, err
+			}
+		default:
+			d.kind = "raw"
+			d.raw = append([]byte{}, s.Data...)
+		}
+		f.secs = append(f.secs, d)
+	}
+	return f, nil
+}
+
+func (f *c14File) encode() []c14Section {
+	out := make([]c14Section, 0, len(f.secs))
+	for i := range f.secs {
+		s := &f.secs[i]
+		var b []byte
+		switch s.kind {
+		case "header":
+			b = protocol.Encode(&s.header)
+		case "sp":
+			b = protocol.Encode(&s.sp)
+		case "chunk":
+			b = protocol.Encode(&s.chunk)
+		default:
+			b = s.raw
+		}
+		out = append(out, c14Section{Name: s.name, Data: b})
+	}
+	return out
+}
+
+func (f *c14File) chunkIdx() []int {
+	var out []int
+	for i := range f.secs {
+		if f.secs[i].kind == "chunk" {
+			out = append(out, i)
+		}
+	}
+	return out
+}
+
 
 func c14RemoveAll(dir string) {
 	_ = os.RemoveAll(dir)
